@@ -361,7 +361,7 @@ def run(tier, seed):
         ver, vm = rng2.choice(ace_gen.VERSIONS)
         ajobs.append(dict(tid=t, plat=plat, ver=ver, vmajor=vm, port_nr=rng2.random() < 0.4, protocol_nr=rng2.random() < 0.4,
                           line=ace_gen.ace_text(rng2, plat, vm), origin="slots"))
-    ahits, astats, n_aevents, _asamples = core.exec_validate(ace_gen.exec_job, ajobs, "Trace_C01")
+    ahits, astats, n_aevents, _asamples = core.exec_validate(ace_gen.exec_job, ajobs, "Trace_C01", batch=4000)
     aevents = range(n_aevents)
     for v, j, evs in ahits:
         if v["clause"].startswith("C06.") or v["clause"].startswith("machinery"):
